@@ -43,6 +43,35 @@ func runC14(p *core.Program, r *core.Report) {
 	r.Rule("C14.serial", "GetBytes ~ BuildHyperLogLog agree on the layout", 1)
 	r.Rule("C14.widen", "estimator arithmetic widens before it multiplies: no float64/int64 conversion of a product or shift computed in a 32-bit integer type (m*m wraps at log2m = 16)", 1)
 	c14Widen(p, r)
+	// the register count of a set is the caller's count in both constructors (the word array may be
+	// longer than count/6 rounded: deriving the count from it adds phantom registers)
+	for _, ctor := range []string{"NewRegisterSet", "NewRegisterSetInit"} {
+		fi := p.Func("util/hll", ctor)
+		if fi == nil || fi.Decl.Body == nil || fi.Decl.Type.Params.NumFields() == 0 {
+			continue
+		}
+		info := fi.Pkg.TypesInfo
+		cobj := info.Defs[fi.Decl.Type.Params.List[0].Names[0]]
+		bad := ""
+		seen := false
+		ast.Inspect(fi.Decl.Body, func(n ast.Node) bool {
+			if as, ok := n.(*ast.AssignStmt); ok && len(as.Lhs) == len(as.Rhs) {
+				for i, l := range as.Lhs {
+					if sel, ok := l.(*ast.SelectorExpr); ok && sel.Sel.Name == "Count" {
+						seen = true
+						id, isId := stripConvs(info, as.Rhs[i]).(*ast.Ident)
+						if !isId || info.ObjectOf(id) != cobj {
+							bad = "Count is set to `" + stripSpaces(types.ExprString(as.Rhs[i])) + "`, not to the count the caller asked for"
+						}
+					}
+				}
+			}
+			return true
+		})
+		if seen {
+			r.Check(bad == "", "C14.geometry", "util/hll."+ctor+" count", p.Pos(fi.Decl.Pos()), "Count = the requested register count", bad)
+		}
+	}
 	c14Pure(p, r)
 	c14Max(p, r)
 	c14Geometry(p, r)
@@ -263,7 +292,31 @@ func c14Max(p *core.Program, r *core.Report) {
 				switch v := n.(type) {
 				case *ast.AssignStmt:
 					if ix, ok := v.Lhs[0].(*ast.IndexExpr); ok && strings.HasPrefix(stripSpaces(types.ExprString(ix.X)), rn+".M") {
-						out = append(out, paths.Event{Kind: "STORE"})
+						// the register is replaced: word = (word with the register's bits cleared) | new value
+						clears := false
+						if v.Tok == token.ASSIGN && len(v.Rhs) == 1 {
+							ast.Inspect(v.Rhs[0], func(k ast.Node) bool {
+								switch b := k.(type) {
+								case *ast.BinaryExpr:
+									if b.Op == token.AND_NOT {
+										clears = true
+									}
+									if b.Op == token.AND {
+										for _, side := range []ast.Expr{b.X, b.Y} {
+											if u, ok := ast.Unparen(side).(*ast.UnaryExpr); ok && u.Op == token.XOR {
+												clears = true
+											}
+										}
+									}
+								}
+								return true
+							})
+						}
+						arg := "replace"
+						if !clears {
+							arg = "merge"
+						}
+						out = append(out, paths.Event{Kind: "STORE", Arg: arg})
 					}
 				case *ast.ReturnStmt:
 					if len(v.Results) == 1 {
@@ -275,6 +328,9 @@ func c14Max(p *core.Program, r *core.Report) {
 		var probs []string
 		for _, pa := range ps {
 			less := curName != "" && newName != "" && pa.HasArg("COND", cc(curName, "<", newName, true))
+			if pa.HasArg("STORE", "merge") {
+				probs = append(probs, "the new value is or-ed into the word without clearing the register's old bits: the register becomes old|new, not the larger value")
+			}
 			if pa.Has("STORE") != less {
 				probs = append(probs, "the register is written on a path where the new value is not larger (or not written where it is): "+pa.String())
 			}
